@@ -294,6 +294,39 @@ def r2(ck, prog, run):
                 bad.append(("shape", repr(res)[:80]))
             ck.same("R2", f0.where, f"f0(times), entry indices {idxs}", "element k is the derivative of its own entry's polynomial at its own dt", not bad,
                     found=str(bad[:2]), nontrivial=True)
+    # ---- N-d times: rows may mix entries; every element still gets its own entry at its own dt
+    for shape2, idxs in (((2, 2), [0, 1, 1, 1]), ((2, 3), [2, 0, 0, 0, 2, 1])):
+        nt = len(idxs)
+        times = NdArr(shape2, [Num(sp.Symbol(f"t{k}", real=True) / Hz, kind="time") for k in range(nt)])
+        index = NdArr(shape2, [Num(v) for v in idxs])
+        dts = NdArr(shape2, [Num(sp.Symbol(f"d{k}", real=True)) for k in range(nt)])
+        for fn_, label in ((call, "predictor"), (f0, "f0")):
+            r = ck.attempt("R2", fn_.where, f"{label}(times of shape {shape2}) with entry indices {idxs}", "evaluates", lambda: eval_with_index(prog, fn_, pred, times, index, dts))
+            if r is None:
+                continue
+            res, log, ev = r
+            bad = []
+            if fn_ is call:
+                fa = [ev_[1] for ev_ in log.events if ev_[0] == "from_angles"]
+                ok = len(fa) == 1 and isinstance(fa[0]["phase1"], NdArr) and isinstance(fa[0]["phase2"], NdArr) \
+                    and tuple(fa[0]["phase1"].shape) == shape2 and tuple(fa[0]["phase2"].shape) == shape2
+                if ok:
+                    for k, e in enumerate(idxs):
+                        p1, p2 = fa[0]["phase1"].items[k].expr, fa[0]["phase2"].items[k].expr
+                        if sp.simplify(p1 - rph[e] * 2 * sp.pi) != 0 or sp.simplify(p2 - polys[e].expr(sp.Symbol(f"d{k}", real=True)) * 2 * sp.pi) != 0:
+                            bad.append((k, e, str(p1)[:30], str(p2)[:50]))
+                else:
+                    bad.append(("shape", str([{k_: str(v)[:40] for k_, v in a.items()} for a in fa])[:160]))
+            else:
+                if isinstance(res, NdArr) and tuple(res.shape) == shape2:
+                    for k, e in enumerate(idxs):
+                        exp = sp.diff(polys[e].expr(x), x, 1).subs(x, sp.Symbol(f"d{k}", real=True)) * 2 * sp.pi * Hz
+                        if sp.simplify(res.items[k].expr - exp) != 0:
+                            bad.append((k, e, str(res.items[k].expr)[:60]))
+                else:
+                    bad.append(("shape", repr(res)[:80]))
+            ck.same("R2", fn_.where, f"{label}(times of shape {shape2}), entry indices {idxs}", "element k of an N-d time array gets the reference phase / polynomial of its own "
+                    "entry at its own dt, also when one row mixes entries", not bad, found=str(bad[:2]), nontrivial=True)
     # ---- phasepol: the recentred polynomial plus the returned reference phase reproduce the prediction around t0
     pp = prog.func("PhasePredictor.phasepol")
     run.touched(pp)
